@@ -282,7 +282,7 @@ mutual
             extHeaderSize := (ext.map (fun e => 20 + e.data.length)).getD 0,
             dataOffset := pre, fvOffset := fvOffset, resizable := resizable,
             -- the free space a reader finds: an erased header after the last file
-            freeSpace := if endF + 24 < length then length - alignUp endF 8 else 0 }
+            freeSpace := if endF + 24 ≤ length then length - alignUp endF 8 else 0 }
           buf (treeFiles files)
     | .other zv g attrs rev rsv blocks body, fvOffset, resizable =>
       let length := fvHdrLen blocks + body.length
@@ -407,7 +407,7 @@ mutual
         | .leaf _ _ _ _ a _ _ _ => a
         | .sect _ _ a _ secs => sectAttrs a (sizeSecs 0 secs)
       let hl := if attrs &&& 1 ≠ 0 then 32 else 24
-      wfFile f && al + 24 < length && al + sizeFile f ≤ length &&
+      wfFile f && al + 24 ≤ length && al + sizeFile f ≤ length &&
         (al + hl) % alignmentOf attrs == 0 && wfFiles (al + sizeFile f) length fs
   /-- some rebuilt file or section is larger than 16 MiB (the tool then switches the volume
       that is assembled next to FFSv3) -/
@@ -450,8 +450,8 @@ mutual
                      ehoOf blocks ext + 20 < length) &&
         length % 8 == 0 && length < 0x4000000000000000 && 64 ≤ length &&
         wfFiles pre length files &&
-        -- the last file is followed by nothing, or by an erased header that lies inside the volume
-        (endFiles pre files + 24 < length → alignUp (endFiles pre files) 8 + 32 ≤ length) &&
+        -- (no condition on what follows the last file: since fixes 8039e86 / F52 the reader takes an erased
+        --  24-byte tail for free space and finds a header that starts exactly at Length-24)
         -- a file or section above 16 MiB forces FFSv3 here and in every nested volume
         (!anyBigFiles files || (v3 && allV3Files files))
     | .other zv g attrs rev rsv blocks body =>
